@@ -14,7 +14,7 @@ BUDGET = {'quick': 500, 'thorough': 40000}
 TIME = {'quick': 100, 'thorough': 800}
 RULE = ('histories: action kind (snapshot/log/metric/span) x fire_count text x fire_period text x window x up to 40 '
         'hits with scripted clock (boundary spacings: exactly period, +-1 ns, backwards steps) and per-hit condition '
-        '(true/false/raising) and, in 30% of the histories, unrelated configuration changes (register/unregister of another tracepoint through the real TracepointConfigService) between hits, driven through the real TriggerHandler.trace_call; one tracepoint yielding sibling actions (snapshot+metrics+span, metric processor failing part-way: the hit still counts) judged per action; several tracepoints with different limits on one line (merged into one trigger or separate triggers) judged per tracepoint; schedules: all 20 interleavings of '
+        '(true/false/raising) and, in 30% of the histories, unrelated configuration changes (register/unregister of another tracepoint through the real TracepointConfigService) between hits, driven through the real TriggerHandler.trace_call; a labelled stream in which the service re-sends the tracepoint in a later UPDATE (compared with the model's per-installation run; the statement's reading is the known finding C04/update-resets-count); one tracepoint yielding sibling actions (snapshot+metrics+span, metric processor failing part-way: the hit still counts) judged per action; several tracepoints with different limits on one line (merged into one trigger or separate triggers) judged per tracepoint; schedules: all 20 interleavings of '
         '2 threads x (check, process, record) forced with gates inside the condition and a watch. A case is '
         'non-trivial when at least one hit is rejected by a limit and at least one collects (or, for schedules, when '
         'the threads overlap). Distinct = distinct canonical JSON of the case.')
@@ -140,6 +140,15 @@ def gen(rng, tier):
             yield {'kind': 'siblings', 'cfg': cfg, 'hits': hits, 'span': rng.random() < 0.6,
                    'metric_fail_at': sorted(rng.sample(range(0, 2 * len(hits) + 2), rng.randint(0, 3))),
                    'bad_metric': rng.random() < 0.4}
+        elif k % 24 == 18:
+            # the service re-sends the tracepoint in a later UPDATE (known finding C04/update-resets-count):
+            # compared with the model (which restarts the statistics), judged by the statement (which does not)
+            a = gen_history(rng)
+            hits = [h for h in a['hits'] if 'op' not in h]
+            for _ in range(rng.randint(1, 2)):
+                hits.insert(rng.randint(1, len(hits)), {'op': 'resend'})
+            a['hits'] = hits
+            yield a
         elif tier == 'thorough' and k % 12 == 6:
             n = rng.choice([3, 4])
             if rng.random() < 0.4:          # serial blocks in a random thread order
@@ -183,6 +192,11 @@ def known_replays():
          {'kind': 'history', 'action': 'snapshot', 'via': 'args',
           'cfg': {'fire_count': '1', 'window_end': 5, 'window_in_args': True},
           'hits': [{'ts': 1000, 'cond': 'true'}]}),
+        ('C04/update-resets-count',
+         'a fire_count=1 tracepoint that is still contained in the next UPDATE response collects again: every UPDATE '
+         'rebuilds every tracepoint with fresh statistics',
+         {'kind': 'history', 'action': 'snapshot', 'via': 'args', 'cfg': {'fire_count': '1', 'fire_period': '0'},
+          'hits': [{'ts': 10, 'cond': 'true'}, {'ts': 20, 'cond': 'true'}, {'op': 'resend'}, {'ts': 30, 'cond': 'true'}]}),
     ]
 
 
@@ -243,7 +257,12 @@ def run_history(case):
         for h in case['hits']:
             if 'op' in h:
                 # an unrelated configuration change while the tracepoint stays installed
-                if h['op'] == 'register':
+                if h['op'] == 'resend':
+                    # an UPDATE response that still contains this tracepoint: the agent rebuilds it
+                    resent = getattr(rig, '_resent', 1) + 1
+                    rig._resent = resent
+                    rig.install_via_service([make_action(rig, case)], new_hash='h%d' % resent)
+                elif h['op'] == 'register':
                     regs.append(rig.config.tracepoints.add_custom('elsewhere.py', 3, {}, [], []))
                 elif regs:
                     rig.config.tracepoints.remove_custom(regs.pop())
@@ -511,6 +530,8 @@ def known_finding(case, obs):
         return 'C04/2-threads-check-check-record-record'
     if case['kind'] == 'history' and case['cfg'].get('window_in_args'):
         return 'C04/window-args-dropped'
+    if case['kind'] == 'history' and any(h.get('op') == 'resend' for h in case['hits']):
+        return 'C04/update-resets-count'
     return None
 
 
@@ -528,6 +549,14 @@ def model_request(case, obs):
         for k in ('window_start', 'window_end'):
             if k in case['cfg']:
                 cfg[k] = case['cfg'][k]
+    if any(h.get('op') == 'resend' for h in case['hits']):
+        segs = [[]]
+        for h in case['hits']:
+            if h.get('op') == 'resend':
+                segs.append([])
+            elif 'op' not in h:
+                segs[-1].append({'ts': h['ts'], 'cond': h['cond'] == 'true'})
+        return {'op': 'runSeg', 'cfg': cfg, 'segs': segs}
     return {'op': 'run', 'cfg': cfg, 'hits': [{'ts': h['ts'], 'cond': h['cond'] == 'true'} for h in case['hits']
                                               if 'op' not in h]}
 
@@ -557,7 +586,7 @@ def label(case, obs):
         return 'schedule/' + ('overlap' if overlapping(case) else 'serial')
     n = len(obs.get('collected', []))
     hits = [h for h in case['hits'] if 'op' not in h]
-    ops = '+cfgops' if len(hits) != len(case['hits']) else ''
+    ops = '+resend' if any(h.get('op') == 'resend' for h in case['hits']) else '+cfgops' if len(hits) != len(case['hits']) else ''
     return f"{case['action']}/{case['via']}{ops}/" + ('none' if n == 0 else 'all' if n == len(hits) else 'some')
 
 
